@@ -153,6 +153,10 @@ func lexStart(l *lexer) stateFn {
 	for {
 		r := l.next()
 		if r == eof {
+			if l.width > 0 {
+				// a NUL byte in the input, not the end of the input
+				return l.errorf("unexpected character %#U", r)
+			}
 			l.emit(itemEOF)
 			return nil
 		}
@@ -211,9 +215,7 @@ func lexIdentifier(l *lexer) stateFn {
 	for {
 		r := l.next()
 		if !(unicode.IsLetter(r) || r == '.' || r == '_' || unicode.IsDigit(r)) {
-			if r != eof {
-				l.backup()
-			}
+			l.backup() // (does nothing at the end of the input)
 			l.emit(itemIdentifier)
 			return lexStart
 		}
